@@ -883,3 +883,79 @@ Theorem par_lifetime g d t0 ops : Forall tick_ok ops ->
 Proof.
   intro H. apply par_lifetime_gen; auto. split; [intros u e Hin; contradiction|intros u t l Hin; contradiction].
 Qed.
+
+(* ================================================================ by value: effective parameters = the object's *)
+Lemma k_ru_ne_client : k_client_id <> k_request_uri.
+Proof. intro H. vm_compute in H. discriminate. Qed.
+Lemma k_ru_ne_auth : k_authenticated <> k_request_uri.
+Proof. intro H. vm_compute in H. discriminate. Qed.
+Lemma k_ru_ne_redirect : k_redirect_uri <> k_request_uri.
+Proof. intro H. vm_compute in H. discriminate. Qed.
+
+Lemma has_key_aset {V} k k0 (v : V) d : has_key k (aset k0 v d) = true -> k = k0 \/ has_key k d = true.
+Proof.
+  unfold has_key. destruct (str_eqb k0 k) eqn:E.
+  - apply str_eqb_eq in E. auto.
+  - rewrite assoc_aset_other; auto. intro Heq. subst. rewrite str_eqb_refl in E. discriminate.
+Qed.
+
+Lemma authz_parse_acc_outer g d st outer w st' r via :
+  authz_parse g d st outer w = (st', Acc r, via) ->
+  exists p cid r1, verify_authz g p w = Acc r1 /\ run_hooks g d (hooks g) st r1 cid None = (st', Acc r, via)
+                   /\ assoc k_request_uri p = assoc k_request_uri outer.
+Proof.
+  unfold authz_parse. intro H.
+  destruct (authn_loop g (methods g) outer w) as [c m| | |t| |]; try discriminate.
+  - match type of H with context [verify_authz g ?p w] => destruct (verify_authz g p w) eqn:E end; try discriminate.
+    eexists _, _, _. split; [exact E|]. split; [exact H|].
+    destruct m; repeat rewrite assoc_aset_other; auto using k_ru_ne_client, k_ru_ne_auth.
+  - destruct (methods_configured g); [discriminate|].
+    match type of H with context [verify_authz g ?p w] => destruct (verify_authz g p w) eqn:E end; try discriminate.
+    eexists _, _, _. split; [exact E|]. split; [exact H|reflexivity].
+  - match type of H with context [verify_authz g ?p w] => destruct (verify_authz g p w) eqn:E end; try discriminate.
+    eexists _, _, _. split; [exact E|]. split; [exact H|reflexivity].
+Qed.
+
+Lemma merge_no_request_uri g p w r :
+  merge_obj true g p w = Acc r -> assoc k_request_uri p = None -> assoc k_request_uri (r_params r) = None.
+Proof.
+  intros H Hp. pose proof (merge_obj_ok _ _ _ _ _ H) as [Hok [Hn Hs]].
+  destruct (r_vr r) as [v|] eqn:Ev.
+  - destruct (Hs v eq_refl) as [w' [_ [_ Hr]]]. destruct (Hok v Ev) as [[Hm _] _].
+    apply has_key_false. destruct (has_key k_request_uri (r_params r)) eqn:E; auto.
+    pose proof (merge_strict _ _ _ _ _ H Ev _ E) as Hc.
+    unfold claims_modelled in Hm. repeat (apply andb_true_iff in Hm as [Hm ?]).
+    match goal with Hx : negb (has_key k_request_uri (v_claims v)) = true |- _ => rewrite Hc in Hx; discriminate end.
+  - rewrite (Hn eq_refl). exact Hp.
+Qed.
+
+Lemma rh_strict g d cid : forall hs st r via st' r' via',
+  run_hooks g d hs st r cid via = (st', Acc r', via') -> assoc k_request_uri (r_params r) = None ->
+  r_vr r' = r_vr r /\ via' = via /\
+  forall k, has_key k (r_params r') = true -> has_key k (r_params r) = true \/ k = k_redirect_uri.
+Proof.
+  induction hs as [|h rest IH]; intros st r via st' r' via' H Hn; cbn in H.
+  - inversion H; subst. auto.
+  - destruct h.
+    + unfold do_request_uri in H. rewrite Hn in H. apply IH in H; auto.
+    + destruct (par_request_uri r) eqn:E; try discriminate. apply par_request_uri_acc in E. subst. apply IH in H; auto.
+    + destruct (post_parse g r cid) as [r1| | | |] eqn:E; try discriminate.
+      apply post_parse_acc in E as [c [ci [u [_ [_ [_ [-> _]]]]]]].
+      apply IH in H as [H1 [H2 H3]].
+      * cbn in H1, H3. repeat split; auto. intros k Hk. apply H3 in Hk as [Hk|Hk]; auto.
+        apply has_key_aset in Hk as [Hk|Hk]; auto.
+      * cbn. rewrite assoc_aset_other; auto. apply k_ru_ne_redirect.
+    + discriminate.
+Qed.
+
+Theorem value_strict g d st outer w st' r via v :
+  authz_parse g d st outer w = (st', Acc r, via) -> assoc k_request_uri outer = None -> r_vr r = Some v ->
+  via = None /\ forall k, has_key k (r_params r) = true -> has_key k (v_claims v) = true \/ k = k_redirect_uri.
+Proof.
+  intros H Ho Hv. apply authz_parse_acc_outer in H as [p [cid [r1 [Hver [Hrun Hp]]]]].
+  apply verify_authz_acc in Hver. rewrite Ho in Hp.
+  pose proof (merge_no_request_uri _ _ _ _ Hver Hp) as Hn.
+  apply rh_strict in Hrun as [H1 [H2 H3]]; auto. split; auto.
+  intros k Hk. apply H3 in Hk as [Hk|Hk]; auto. left.
+  eapply merge_strict; eauto. congruence.
+Qed.
